@@ -1,0 +1,98 @@
+// SPDX-License-Identifier: MIT
+
+//! Verification hooks (only with `--cfg a4lg_ffuzzy_verif`; off by default).
+//!
+//! This module provides a stand-in for [`std::fs::File`] used *only* inside
+//! [`hash_file()`](crate::internals::generate_easy_std::hash_file()) so that a
+//! simulator can script the results of `open`, `metadata` and `read`.
+//! When no opener is installed on the current thread (or the installed
+//! opener declines a path), it falls through to the real [`std::fs::File`].
+
+#![cfg(all(a4lg_ffuzzy_verif, feature = "std"))]
+
+use std::boxed::Box;
+use std::cell::RefCell;
+use std::io;
+use std::path::Path;
+
+/// A simulated file (the object behind [`File::Sim`]).
+pub trait SimFile {
+    /// The result of `file.metadata()?.len()`.
+    fn metadata_len(&self) -> io::Result<u64>;
+    /// The result of `file.read(buf)`.
+    fn read(&mut self, buf: &mut [u8]) -> io::Result<usize>;
+}
+
+/// The type of a per-thread "opener".
+///
+/// It returns [`None`] to fall through to the real file system.
+pub type Opener = Box<dyn FnMut(&Path) -> Option<io::Result<Box<dyn SimFile>>>>;
+
+std::thread_local! {
+    /// The opener installed on the current thread (if any).
+    static OPENER: RefCell<Option<Opener>> = RefCell::new(None);
+}
+
+/// Installs (or removes) the opener of the current thread.
+pub fn set_opener(opener: Option<Opener>) {
+    OPENER.with(|o| *o.borrow_mut() = opener);
+}
+
+/// A stand-in for [`std::fs::File`].
+pub enum File {
+    /// A real file.
+    Real(std::fs::File),
+    /// A simulated file.
+    Sim(Box<dyn SimFile>),
+}
+
+/// A stand-in for [`std::fs::Metadata`].
+pub enum Metadata {
+    /// Real metadata.
+    Real(std::fs::Metadata),
+    /// A simulated file size.
+    Sim(u64),
+}
+
+impl Metadata {
+    /// The size of the file.
+    #[allow(clippy::len_without_is_empty)]
+    pub fn len(&self) -> u64 {
+        match self {
+            Metadata::Real(m) => m.len(),
+            Metadata::Sim(n) => *n,
+        }
+    }
+}
+
+impl File {
+    /// Opens a file (through the opener if one is installed).
+    pub fn open<P: AsRef<Path>>(path: P) -> io::Result<File> {
+        let simulated = OPENER.with(|o| match o.borrow_mut().as_mut() {
+            Some(opener) => opener(path.as_ref()),
+            None => None,
+        });
+        match simulated {
+            Some(Ok(f)) => Ok(File::Sim(f)),
+            Some(Err(e)) => Err(e),
+            None => std::fs::File::open(path).map(File::Real),
+        }
+    }
+
+    /// Queries metadata.
+    pub fn metadata(&self) -> io::Result<Metadata> {
+        match self {
+            File::Real(f) => f.metadata().map(Metadata::Real),
+            File::Sim(f) => f.metadata_len().map(Metadata::Sim),
+        }
+    }
+}
+
+impl io::Read for File {
+    fn read(&mut self, buf: &mut [u8]) -> io::Result<usize> {
+        match self {
+            File::Real(f) => io::Read::read(f, buf),
+            File::Sim(f) => f.read(buf),
+        }
+    }
+}
